@@ -140,6 +140,9 @@ def cases(tier, seed):
     out = [(cid, dict(shape=SHAPE_OF.get(cid.split('@')[0], cid.split('@')[0]), kw=dict(kw), split=split, level=level)) for cid, kw, split, level in lst]
     for cid, kw in PERIODIC:
         out.append((cid, dict(shape='-', kw=dict(kw), split=None, level='periodic')))
+    # sequences of calls on the same objects (decided with C10's history machinery: the final problem equals that of fresh objects)
+    # -- a grid with the same number of steps one hour later, then the original one: nodal rows follow the mapping of the call at hand
+    out.append(('history_nodal_rows_after_a_setup_on_a_shifted_grid', common.delegated('c10', pf='dicts', final='h', histories=[['hshift']])))
     return out
 
 
